@@ -54,6 +54,8 @@ def one(run, ct, rng, net, quick):
     except Exception as e:
         return ("raised", core.exc_text(e), d)
     sl0 = {inv[i] for i in tree0.sliced_inds}
+    outs = set(net.output)
+    forbidden_spec = set() if allow_outer is True else (outs if allow_outer is False else set(range(1, net.K + 1)) - outs)
     entries = []
     keys = list(sf.costs)
     for X in keys:
@@ -78,16 +80,20 @@ def one(run, ct, rng, net, quick):
         t2 = tree0.slice(temperature=temperature, minimize=minimize, allow_outer=allow_outer, seed=seed,
                          max_repeats=repeats, **kw)
         after2 = {inv[i] for i in t2.sliced_inds}
-        if not (sl0 <= after2) or after2 & {inv[i] for i in sf.forbidden} - sl0:
+        if not (sl0 <= after2) or (after2 & forbidden_spec) - sl0:
             run.violation(f"tree.slice result lost a sliced index or sliced a forbidden one: before={sorted(sl0)} after={sorted(after2)}",
                           d, tags={"slice-postcondition"})
         if sorted(t2.sliced_inds) == sorted(set(tree0.sliced_inds) | set(ix_sl)):
             after = after2
     except Exception:
         pass
+    # the forbidden set per the statement (NOT the finder's own attribute): output indices when outer slicing is
+    # disallowed, everything but the output indices for allow_outer='only'
+    outs = set(net.output)
+    forbidden_spec = set() if allow_outer is True else (outs if allow_outer is False else set(range(1, net.K + 1)) - outs)
     fo = Fraction(kw["target_overhead"]).limit_denominator(100) if "target_overhead" in kw else None
     case = {"net": net.tla(), "ch": observe.children_of(tree0), "sl0": sl0, "mult0": int(tree0.multiplicity),
-            "forbidden": {inv[i] for i in sf.forbidden}, "tsize": int(kw.get("target_size", 0)),
+            "forbidden": forbidden_spec, "tsize": int(kw.get("target_size", 0)),
             "tslices": int(kw.get("target_slices", 0)), "tover": [fo.numerator, fo.denominator] if fo else [0, 0],
             "entries": entries, "ret": ret + 1, "real": real, "after": after}
     big = max([real["flops"]] + [e["flops"] * e["nslices"] * 100 for e in entries])
